@@ -46,8 +46,8 @@ def check(repo: Repo, R) -> None:
     R.run(c02_.live_passes, repo, shared.Retag(R, lambda r, k: "C07.7-export-elaborates-every-call" if k.endswith("Elaborator.elaborate") else None,
                                         "the result of elaborating a design depends on whether an earlier call already touched it"))
     c18_ = __import__("hsa.rules.c18", fromlist=["x"])
-    R.run(c18_.check, repo, shared.Retag(R, lambda r: "C07.3-freeze" if r.startswith("C18.7") else None,
-                                   "a definition that was elaborated accepts additions: parents elaborated earlier and later disagree about its ports"))
+    R.run(c18_.check, repo, shared.Retag(R, lambda r, k: "C07.3-freeze" if r.startswith("C18.7") or (r.startswith("C18.4") and k.endswith("freeze-guard")) else None,
+                                   "a definition that was elaborated accepts additions — or is changed by the very call that refuses one (the holder of the name is evicted before the refusal): exporting the same design again gives another package"))
     R.floor("C07.1-snapshot-before-flattening", 2)
     R.floor("C07.2-bundled-vs-flattened-io", 2)
     R.floor("C07.3-freeze", 3)
